@@ -3,6 +3,12 @@
 import json
 PROPS = [json.loads(l) for l in open('/verif/properties.jsonl')]
 CLAIMED = {
+ "C15": dict(
+    category="proof",
+    text="Coq theorem C15_chain proves by induction over the wrapper chain (any depth, any order of slices with ints / ranges and resamples with any non-zero factors and any offsets, ANY PC matrix) that the FITS WCS produced by the transcription of unwrap_wcs_to_fitswcs / _slice_fitswcs / _resample_fitswcs has, at every pixel of the wrapped grid (0 on dropped placeholder axes), the same intermediate world coordinates as the chain; C15_resample_step / C15_slice_step are the per-wrapper laws; C15_old_crpix_rule_iff shows the pinned rule was right iff 2o = f-1. Tied to /repo by exact comparison of the returned CRPIX/CDELT/PC/NAXIS/dropped axes (chain read back from the wrapper objects), a full-grid + off-grid world-value oracle (incl. TAN / rotated celestial bases), a no-mutation check of the base WCS and refusal of non-FITS bases.",
+    design_ref="DESIGN.md §5.15",
+    note="Trusted: Coq kernel + VM; Model/M_Unwrap.v transcription; WCS.slice's CRPIX shift and numpy-length NAXIS are a dependency model (slice_axis) validated by the same run; the non-linear part of a FITS WCS is taken to be a function of the intermediate coordinates; raw negative items in hand-built SlicedLowLevelWCS excluded.",
+    technique="Coq proof (field over Q, induction over the chain) over hand-written Gallina model + vm_compute correspondence check"),
  "C09": dict(
     category="proof",
     text="Coq theorems prove that the rebinned WCS reports, for ANY inner WCS, the inner coordinates at j*f+(f-1)/2 on every axis (C09_wcs, C09_block_centre_positions, C09_block_centre), that this registration holds iff the offset is (f-1)/2 (C09_centre_iff_offset), that output pixel edges are every f-th source edge, f=1 axes are untouched and rebin-of-rebin composes (C09_edges, C09_unit_factor, C09_rebin_of_rebin), and that the arange-and-filter grid of ExtraCoords.resample with that offset is exactly the M block centres for every integer factor and axis length M*f, where the tables are sampled by linear interpolation (C09_grid, C09_extra). Tied to /repo by exact decoding of the linear probe WCS at centres and edges, table comparison (Quantity / Time / SkyCoord, plain / sliced / rebinned sources) and a direct oracle on TAN / rotated families.",
